@@ -84,7 +84,8 @@ func (w *World) Dump() string {
 	}
 	sort.Strings(ks)
 	for _, k := range ks {
-		fmt.Fprintf(&b, "%s=%T(%v)\n", k, w.Vars[k], w.Vars[k])
+		// value and family only: the Go width of a top-level variable is not specified anywhere
+		fmt.Fprintf(&b, "%s=%s\n", k, FromReflect(reflect.ValueOf(w.Vars[k])).String())
 	}
 	ks = ks[:0]
 	for k := range w.JSON {
@@ -123,6 +124,7 @@ type Val struct {
 	T time.Time
 	R reflect.Value // composite Go value
 	J interface{}   // composite JSON value
+	GK reflect.Kind // exact Go kind the value was read with (Invalid: literal / computed => int64, uint64, float64)
 	// place (for assignment): set by evalRef
 }
 
@@ -176,11 +178,11 @@ func FromReflect(rv reflect.Value) Val {
 	}
 	switch rv.Kind() {
 	case reflect.Int, reflect.Int8, reflect.Int16, reflect.Int32, reflect.Int64:
-		return Val{K: VInt, I: rv.Int()}
+		return Val{K: VInt, I: rv.Int(), GK: rv.Kind()}
 	case reflect.Uint, reflect.Uint8, reflect.Uint16, reflect.Uint32, reflect.Uint64:
-		return Val{K: VUint, U: rv.Uint()}
+		return Val{K: VUint, U: rv.Uint(), GK: rv.Kind()}
 	case reflect.Float32, reflect.Float64:
-		return Val{K: VFloat, F: rv.Float()}
+		return Val{K: VFloat, F: rv.Float(), GK: rv.Kind()}
 	case reflect.String:
 		return Val{K: VString, S: rv.String()}
 	case reflect.Bool:
@@ -201,7 +203,9 @@ func FromReflect(rv reflect.Value) Val {
 			}
 			return Val{K: VComp, R: rv}
 		default:
-			return FromReflect(rv.Elem()) // pointer to number/string/bool reads as the value
+			v := FromReflect(rv.Elem()) // pointer to number/string/bool reads as the value
+			v.GK = reflect.Ptr
+			return v
 		}
 	case reflect.Interface:
 		if rv.IsNil() {
@@ -974,6 +978,9 @@ func (p place) set(v Val) error {
 }
 
 func exactKind(t reflect.Type, v Val) bool {
+	if v.GK != reflect.Invalid && v.GK != t.Kind() && v.K != VComp && v.K != VNil {
+		return false
+	}
 	switch t.Kind() {
 	case reflect.Int64:
 		return v.K == VInt
